@@ -114,7 +114,7 @@ Ltac case_on t := let H := fresh "H" in destruct t eqn:H; cbn; try reflexivity.
 Ltac callr lem := rewrite exec_call; cbn; rewrite lem; cbn.
 (* normal form of a state expression: call-by-need, so that nested with_* do not duplicate their argument *)
 Ltac norm := lazy beta iota zeta delta [leave leave_block with_ret with_env add_log with_cs with_g with_cur with_max with_tb enter
-                                       env cs charged lg ret bg bcur bmax btb skipn List.length Nat.sub combine fst snd].
+                                       env cs charged lg ret fst snd].
 
 (* the table accounting after an erasure *)
 Definition tb_charged (ch : bool) (t : tbl) : tbl := if ch then t else t_erase t (o_tomb (ob oB)).
@@ -193,11 +193,15 @@ Qed.
 Definition evict_log (evd : list entry) : list logitem := flat_map (fun e => [LHash; LDropKV evict_site e]) evd.
 Definition tb_after (ch : bool) (t : tbl) (evd : list entry) : tbl := match evd with [] => t | _ => tb_charged ch t end.
 Definition ch_after (ch : bool) (evd : list entry) : bool := match evd with [] => ch | _ => true end.
+Lemma tb_after_true t evd : tb_after true t evd = t.
+Proof. destruct evd; reflexivity. Qed.
 
-Definition eject_cond : state -> option bool :=
-  fun s1 => match eval VS (env s1) (cs s1) (ECmp CGt (ESelf "current_size") (EVar "target")) with Some (VBool t) => Some t | _ => None end.
-Definition eject_body : state -> option state :=
-  fun s1 => state_of (in_block s1 (exec E VS oB "LruCache::eject_to_target" (seq [SExpr (call lrucache_remove_lru [])]) s1)).
+(* the loop of eject_to_target, read off the generated program (no name of the source is mentioned here) *)
+Definition eject_parts : expr * tm :=
+  match fn_body lrucache_eject_to_target with SSeq (SWhile c body) SSkip => (c, body) | _ => (EUnknown "", SUnknown "") end.
+Definition eject_cond : state -> option bool := wcond VS (fst eject_parts).
+Definition eject_body : state -> option state := block_of (exec E VS oB (fn_name lrucache_eject_to_target) (snd eject_parts)).
+Definition eject_env (tgt : N) : envt := combine (fn_params lrucache_eject_to_target) [VNum tgt].
 
 Lemma b_eject_eq fuel g c tgt :
   b_eject fuel g c tgt =
@@ -217,15 +221,15 @@ Lemma b_eject_spin fuel g c tgt : (c <=? tgt) = false -> b_lru g = Some None -> 
 Proof. intros Hc Hl. rewrite b_eject_eq, Hc. destruct fuel; [reflexivity|]. rewrite Hl. reflexivity. Qed.
 
 Lemma eject_loop tgt : forall fuel b ch l,
-  while_loop eject_cond eject_body fuel {| env := [("target", VNum tgt)]; cs := b; charged := ch; lg := l; ret := None |} =
+  while_loop eject_cond eject_body fuel {| env := eject_env tgt; cs := b; charged := ch; lg := l; ret := None |} =
   (x <- b_eject fuel (bg b) (bcur b) tgt ;;
    let '(g', c', evd) := x in
-   Some {| env := [("target", VNum tgt)]; cs := {| bg := g'; bcur := c'; bmax := bmax b; btb := tb_after ch (btb b) evd |};
+   Some {| env := eject_env tgt; cs := {| bg := g'; bcur := c'; bmax := bmax b; btb := tb_after ch (btb b) evd |};
            charged := ch_after ch evd; lg := l ++ evict_log evd; ret := None |}).
 Proof.
   induction fuel as [|f IH]; intros [g c m t] ch l; cbn; rewrite b_eject_eq; cbn [bg bcur bmax btb]; rewrite N.ltb_antisym;
     destruct (c <=? tgt) eqn:Hc; cbn; try (rewrite app_nil_r; reflexivity); try reflexivity.
-  unfold eject_body at 1. cbn. callr P2_lrucache_remove_lru_call.
+  unfold eject_body at 1. unfold block_of at 1. cbn. callr P2_lrucache_remove_lru_call.
   destruct (b_lru g) as [[p|]|] eqn:Hl; cbn; try reflexivity.
   - case_on (entry_at (gh g) p). case_on (b_remove g p). case_on (sub64 c (es e)).
     unfold leave_block, add_log, with_env; cbn. rewrite IH. cbn. destruct (b_eject f g0 n tgt) as [[[g2 c2] evd]|]; cbn; [|reflexivity].
@@ -244,7 +248,7 @@ Theorem P2_lrucache_eject_to_target_call tgt st :
 Proof.
   destruct st as [en b ch l r]. unfold call_fn, lrucache_eject_to_target. cbn.
   change (while_loop _ _ ?n ?s) with (while_loop eject_cond eject_body n s).
-  unfold enter; cbn. rewrite eject_loop. cbn.
+  unfold enter; cbn. rewrite (eject_loop tgt). cbn.
   destruct (b_eject (List.length (glist (bg b))) (bg b) (bcur b) tgt) as [[[g2 c2] evd]|]; cbn; reflexivity.
 Qed.
 
@@ -293,6 +297,16 @@ Lemma log_hashes_app l1 l2 : log_hashes (l1 ++ l2) = log_hashes l1 + log_hashes 
 Proof. unfold log_hashes. now rewrite map_app, sumN_app. Qed.
 Lemma log_rebuilt_app l1 l2 : log_rebuilt (l1 ++ l2) = log_rebuilt l1 || log_rebuilt l2.
 Proof. apply existsb_app. Qed.
+Lemma log_evicted_cons i l : log_evicted (i :: l) = log_evicted [i] ++ log_evicted l.
+Proof. change (i :: l) with ([i] ++ l). apply log_evicted_app. Qed.
+Lemma log_dropped_cons i l : log_dropped (i :: l) = log_dropped [i] ++ log_dropped l.
+Proof. change (i :: l) with ([i] ++ l). apply log_dropped_app. Qed.
+Lemma log_visits_cons i l : log_visits (i :: l) = log_visits [i] ++ log_visits l.
+Proof. change (i :: l) with ([i] ++ l). apply log_visits_app. Qed.
+Lemma log_hashes_cons i l : log_hashes (i :: l) = log_hashes [i] + log_hashes l.
+Proof. change (i :: l) with ([i] ++ l). apply log_hashes_app. Qed.
+Lemma log_rebuilt_cons i l : log_rebuilt (i :: l) = log_rebuilt [i] || log_rebuilt l.
+Proof. change (i :: l) with ([i] ++ l). apply log_rebuilt_app. Qed.
 Lemma evict_log_cons e r : evict_log (e :: r) = [LHash; LDropKV evict_site e] ++ evict_log r.
 Proof. reflexivity. Qed.
 Lemma evict_log_evicted evd : log_evicted (evict_log evd) = evd.
@@ -325,9 +339,11 @@ Proof.
 Qed.
 
 Notation run := (run_op E VS oB).
-Ltac evlog := unfold ev_of_log; rewrite ?app_nil_r; cbn [app];
-  rewrite ?log_evicted_app, ?log_dropped_app, ?log_hashes_app, ?log_rebuilt_app, ?log_visits_app,
-          ?evict_log_evicted, ?evict_log_dropped, ?evict_log_hashes, ?evict_log_rebuilt, ?evict_log_visits.
+Ltac evlog := unfold ev_of_log; rewrite ?app_nil_r;
+  repeat rewrite ?log_evicted_app, ?log_dropped_app, ?log_hashes_app, ?log_rebuilt_app, ?log_visits_app,
+                 ?log_evicted_cons, ?log_dropped_cons, ?log_hashes_cons, ?log_rebuilt_cons, ?log_visits_cons,
+                 ?evict_log_evicted, ?evict_log_dropped, ?evict_log_hashes, ?evict_log_rebuilt, ?evict_log_visits;
+  cbn.
 
 (* ---------- remove_lru / remove_mru ---------- *)
 Theorem P2_lrucache_remove_lru : forall b, run lrucache_remove_lru [] out_kv b = stepB E VS b RemoveLru oB.
@@ -517,6 +533,146 @@ Proof.
   destruct (esz E k v) as [sz|]; cbn; [|reflexivity]. destruct (bmax b <? sz); reflexivity.
 Qed.
 
+(* ================================================================================================================
+   The larger functions are executed STEP BY STEP: from here on `exec` does not unfold under cbn; one step of it is
+   one of the equations x_<constructor> below (each is the defining clause of `exec`, by reflexivity), applied by
+   rewriting at the evaluation position only (the occurrences of `exec` in continuations mention bound variables and
+   cannot be rewritten).  This keeps every conversion the kernel has to check small. *)
+Notation ex := (exec E VS oB).
+Lemma x_RExp fn e st : ex fn (RExp e) st = (v <- eval VS (env st) (cs st) e ;; Some (v, st)).
+Proof. reflexivity. Qed.
+Lemma x_RPrim fn p args st : ex fn (RPrim p args) st = (vs <- eval_list VS (env st) (cs st) args ;; do_prim E oB p vs st).
+Proof. reflexivity. Qed.
+Lemma x_RMap fn r1 p body tail st : ex fn (RMap r1 p body tail) st = (bindr (ex fn r1 st) (fun v st1 =>
+        match v with
+        | VNone => Some (VNone, st1)
+        | VSome w =>
+            in_block st1
+              (st2 <- bind_pat fn p w st1 ;;
+               bindr (ex fn body st2) (fun _ st3 =>
+               bindr (ex fn tail st3) (fun t st4 => Some (VSome t, st4))))
+        | _ => None
+        end)).
+Proof. reflexivity. Qed.
+Lemma x_RUnwrap fn r1 st : ex fn (RUnwrap r1) st = (bindr (ex fn r1 st) (fun v st1 =>
+        match v with
+        | VSome w | VOk w => Some (w, st1)
+        | _ => None
+        end)).
+Proof. reflexivity. Qed.
+Lemma x_RUnwrapUnchecked fn r1 st : ex fn (RUnwrapUnchecked r1) st = (bindr (ex fn r1 st) (fun v st1 =>
+        match v with VSome w | VOk w => Some (w, st1) | _ => None end)).
+Proof. reflexivity. Qed.
+Lemma x_RTry fn r1 st : ex fn (RTry r1) st = (bindr (ex fn r1 st) (fun v st1 =>
+        match v with
+        | VOk w => Some (w, st1)
+        | VErr e => Some (VUnit, with_ret st1 (Some (VErr e)))
+        | _ => None
+        end)).
+Proof. reflexivity. Qed.
+Lemma x_RProj fn r1 i st : ex fn (RProj r1 i) st = (bindr (ex fn r1 st) (fun v st1 =>
+        match v, i with
+        | VKV e, O => Some (VKey (ek e), add_log st1 [LDrop [vtok (ev e)]])
+        | VKV e, S O => Some (VVal (ev e), add_log st1 [LDrop [ktok (ek e)]])
+        | VPair a b, O => l <- drop_log fn b ;; Some (a, add_log st1 l)
+        | VPair a b, S O => l <- drop_log fn a ;; Some (b, add_log st1 l)
+        | _, _ => None
+        end)).
+Proof. reflexivity. Qed.
+Lemma x_RIsSome fn r1 st : ex fn (RIsSome r1) st = (bindr (ex fn r1 st) (fun v st1 =>
+        match v with VSome _ => Some (VBool true, st1) | VNone => Some (VBool false, st1) | _ => None end)).
+Proof. reflexivity. Qed.
+Lemma x_ROkOr fn r1 e st : ex fn (ROkOr r1 e) st = (bindr (ex fn r1 st) (fun v st1 =>
+        match v with
+        | VSome w => Some (VOk w, st1)
+        | VNone => w <- eval VS (env st1) (cs st1) e ;; Some (VErr w, st1)
+        | _ => None
+        end)).
+Proof. reflexivity. Qed.
+Lemma x_SSkip fn  st : ex fn (SSkip ) st = (Some (VUnit, st)).
+Proof. reflexivity. Qed.
+Lemma x_SSeq fn a b st : ex fn (SSeq a b) st = (bindr (ex fn a st) (fun _ st1 => ex fn b st1)).
+Proof. reflexivity. Qed.
+Lemma x_SLet fn p r st : ex fn (SLet p r) st = (bindr (ex fn r st) (fun v st1 => unit_of (bind_pat fn p v st1))).
+Proof. reflexivity. Qed.
+Lemma x_SDecl fn x st : ex fn (SDecl x) st = (Some (VUnit, with_env st ((x, VUninit) :: env st))).
+Proof. reflexivity. Qed.
+Lemma x_SAssign fn l r st : ex fn (SAssign l r) st = (bindr (ex fn r st) (fun v st1 => unit_of (assign VS l v st1))).
+Proof. reflexivity. Qed.
+Lemma x_SExpr fn r st : ex fn (SExpr r) st = (bindr (ex fn r st) (fun v st1 => l <- drop_log fn v ;; Some (VUnit, add_log st1 l))).
+Proof. reflexivity. Qed.
+Lemma x_SIf fn c a b st : ex fn (SIf c a b) st = (bindr (ex fn c st) (fun v st1 =>
+        match v with
+        | VBool true => in_block st1 (ex fn a st1)
+        | VBool false => in_block st1 (ex fn b st1)
+        | _ => None
+        end)).
+Proof. reflexivity. Qed.
+Lemma x_SIfSome fn p r a b st : ex fn (SIfSome p r a b) st = (bindr (ex fn r st) (fun v st1 =>
+        match v with
+        | VSome w => in_block st1 (st2 <- bind_pat fn p w st1 ;; ex fn a st2)
+        | VNone => in_block st1 (ex fn b st1)
+        | _ => None
+        end)).
+Proof. reflexivity. Qed.
+Lemma x_SMatchRes fn r p1 a p2 b st : ex fn (SMatchRes r p1 a p2 b) st = (bindr (ex fn r st) (fun v st1 =>
+        match v with
+        | VOk w => in_block st1 (st2 <- bind_pat fn p1 w st1 ;; ex fn a st2)
+        | VErr w => in_block st1 (st2 <- bind_pat fn p2 w st1 ;; ex fn b st2)
+        | _ => None
+        end)).
+Proof. reflexivity. Qed.
+Lemma x_SWhile fn c body st : ex fn (SWhile c body) st = (unit_of (while_loop (wcond VS c) (block_of (ex fn body)) (List.length (glist (bg (cs st)))) st)).
+Proof. reflexivity. Qed.
+Lemma x_SLoop fn body st : ex fn (SLoop body) st = (unit_of (loop_n (block_of (ex fn body)) loop_fuel st)).
+Proof. reflexivity. Qed.
+Lemma x_SRet fn r st : ex fn (SRet r) st = (bindr (ex fn r st) (fun v st1 => Some (VUnit, with_ret st1 (Some v)))).
+Proof. reflexivity. Qed.
+Lemma x_SUnknown fn t0 st : ex fn (SUnknown t0) st = (None).
+Proof. reflexivity. Qed.
+
+#[local] Arguments exec : simpl never.
+Ltac xstep :=
+  match goal with
+  | |- context [exec _ _ _ ?fn ?s ?st] =>
+    lazymatch s with
+    | SSeq ?a ?b => rewrite (x_SSeq fn a b st)
+    | SLet ?p ?r => rewrite (x_SLet fn p r st)
+    | SDecl ?x => rewrite (x_SDecl fn x st)
+    | SAssign ?l ?r => rewrite (x_SAssign fn l r st)
+    | SExpr ?r => rewrite (x_SExpr fn r st)
+    | SIf ?c ?a ?b => rewrite (x_SIf fn c a b st)
+    | SIfSome ?p ?r ?a ?b => rewrite (x_SIfSome fn p r a b st)
+    | SMatchRes ?r ?p1 ?a ?p2 ?b => rewrite (x_SMatchRes fn r p1 a p2 b st)
+    | SWhile ?c ?body => rewrite (x_SWhile fn c body st)
+    | SLoop ?body => rewrite (x_SLoop fn body st)
+    | SRet ?r => rewrite (x_SRet fn r st)
+    | SSkip => rewrite (x_SSkip fn st)
+    | SUnknown ?t => rewrite (x_SUnknown fn t st)
+    | RExp ?e => rewrite (x_RExp fn e st)
+    | RPrim ?p ?args => rewrite (x_RPrim fn p args st)
+    | RMap ?r ?p ?body ?tail => rewrite (x_RMap fn r p body tail st)
+    | RUnwrap ?r => rewrite (x_RUnwrap fn r st)
+    | RUnwrapUnchecked ?r => rewrite (x_RUnwrapUnchecked fn r st)
+    | RTry ?r => rewrite (x_RTry fn r st)
+    | RProj ?r ?i => rewrite (x_RProj fn r i st)
+    | RIsSome ?r => rewrite (x_RIsSome fn r st)
+    | ROkOr ?r ?e => rewrite (x_ROkOr fn r e st)
+    end
+  end.
+(* the state at the evaluation position as a record literal *)
+Ltac xnorm :=
+  repeat match goal with
+  | |- context [exec _ _ _ _ _ ?ST] =>
+      lazymatch ST with
+      | Build_state _ _ _ _ _ => fail
+      | _ => let ST' := eval cbn in (Build_state (env ST) (cs ST) (charged ST) (lg ST) (ret ST)) in change ST with ST'
+      end
+  end.
+Ltac xrun := repeat first [ progress xnorm | xstep | progress cbn ].
+Ltac xstart f := unfold call_fn, f; cbn [fn_name fn_params fn_body List.length Nat.eqb seq fold_right]; unfold enter; cbn [combine cs charged lg].
+Ltac xcall lem := rewrite exec_call; cbn; rewrite lem; cbn.
+
 (* ---------- insert_unchecked = b_insert_unchecked, then current_size += size ---------- *)
 Lemma t_insert_eq t items o :
   t_insert E t items o =
@@ -555,46 +711,100 @@ Theorem P2_lrucache_insert_unchecked_call u st : o_alloc (ob oB) = true ->
    Some (VUnit, {| env := env st; cs := {| bg := g2; bcur := c2; bmax := bmax b; btb := t2 |}; charged := charged st;
                    lg := lg st ++ (if rebuilt : bool then [LRehash (N.of_nat (List.length (glist (bg b))))] else []); ret := ret st |})).
 Proof.
-  intros Halloc. destruct st as [en b ch l r]. unfold call_fn, lrucache_insert_unchecked. cbn.
-  destruct (nextof (gh (bg b)) (gseal (bg b))) as [x0|] eqn:Hx0; cbn; [|now rewrite insert_unchecked_no_seal].
-  rewrite N.eqb_refl. cbn. unfold try_insert_no_grow at 1. cbn.
+  intros Halloc. destruct st as [en b ch l r]. xstart lrucache_insert_unchecked. xrun.
+  destruct (nextof (gh (bg b)) (gseal (bg b))) as [x0|] eqn:Hx0; [|now rewrite insert_unchecked_no_seal]. xrun.
+  unfold loop_fuel, loop_n, block_of. xrun. rewrite N.eqb_refl. xrun. unfold try_insert_no_grow at 1. cbn.
   unfold b_insert_unchecked. rewrite t_insert_eq.
-  destruct (o_reuse (ob oB) && (0 <? tombs (btb b))) eqn:Hr; cbn.
-  { destruct (mem_addr (ob_addr oB) (gseal (bg b) :: glist (bg b))); cbn; [reflexivity|].
+  destruct (o_reuse (ob oB) && (0 <? tombs (btb b))) eqn:Hr.
+  { cbn. destruct (mem_addr (ob_addr oB) (gseal (bg b) :: glist (bg b))); xrun; [reflexivity|].
     rewrite b_insert_new_eq, Hx0. cbn.
-    destruct (add64 (bcur b) (es u)) as [c2|]; cbn.
-    - destruct (set_head _ (gseal (bg b)) (ob_addr oB)) as [h'|]; cbn; [|reflexivity]. norm. rewrite !app_nil_r. reflexivity.
+    destruct (add64 (bcur b) (es u)) as [c2|]; xrun.
+    - destruct (set_head _ (gseal (bg b)) (ob_addr oB)) as [h'|]; xrun; [|reflexivity]. norm. cbn. rewrite !app_nil_r. reflexivity.
     - destruct (set_head _ (gseal (bg b)) (ob_addr oB)) as [h'|]; reflexivity. }
-  destruct (0 <? growth_left (btb b) (N.of_nat (List.length (glist (bg b))))) eqn:Hg; cbn.
-  { destruct (mem_addr (ob_addr oB) (gseal (bg b) :: glist (bg b))); cbn; [reflexivity|].
+  destruct (0 <? growth_left (btb b) (N.of_nat (List.length (glist (bg b))))) eqn:Hg.
+  { cbn. destruct (mem_addr (ob_addr oB) (gseal (bg b) :: glist (bg b))); xrun; [reflexivity|].
     rewrite b_insert_new_eq, Hx0. cbn.
-    destruct (add64 (bcur b) (es u)) as [c2|]; cbn.
-    - destruct (set_head _ (gseal (bg b)) (ob_addr oB)) as [h'|]; cbn; [|reflexivity]. norm. rewrite !app_nil_r. reflexivity.
+    destruct (add64 (bcur b) (es u)) as [c2|]; xrun.
+    - destruct (set_head _ (gseal (bg b)) (ob_addr oB)) as [h'|]; xrun; [|reflexivity]. norm. cbn. rewrite !app_nil_r. reflexivity.
     - destruct (set_head _ (gseal (bg b)) (ob_addr oB)) as [h'|]; reflexivity. }
-  rewrite exec_call. cbn.
-  destruct (mul64 (capacity (btb b)) 2) as [cc|] eqn:Hmul; cbn; [|reflexivity].
+  xrun. rewrite exec_call. cbn.
+  destruct (mul64 (capacity (btb b)) 2) as [cc|] eqn:Hmul; xrun; [|reflexivity].
   rewrite P2_lrucache_reallocate_call. cbn. rewrite Halloc.
-  destruct (t_alloc E (N.max cc 1) true) as [t'| |] eqn:Ht; cbn; try reflexivity.
-  destruct (b_moves_chk (bg b) (ob_moves oB)) as [g1|] eqn:Hm; cbn; [|destruct (0 <? growth_left t' _); reflexivity].
+  destruct (t_alloc E (N.max cc 1) true) as [t'| |] eqn:Ht; xrun; try reflexivity.
+  destruct (b_moves_chk (bg b) (ob_moves oB)) as [g1|] eqn:Hm; xrun; [|destruct (0 <? growth_left t' _); reflexivity].
   destruct (moves_chk_inv _ _ _ Hm) as (H1 & H2 & _).
-  destruct (nextof (gh g1) (gseal g1)) as [x1|] eqn:Hx1; cbn.
+  destruct (nextof (gh g1) (gseal g1)) as [x1|] eqn:Hx1; xrun.
   2:{ destruct (0 <? growth_left t' _); cbn; [|reflexivity]. destruct (mem_addr (ob_addr oB) (gseal g1 :: glist g1)); [reflexivity|].
       rewrite b_insert_new_eq, Hx1. reflexivity. }
-  rewrite N.eqb_refl. cbn. unfold try_insert_no_grow at 1. cbn.
+  rewrite N.eqb_refl. xrun. unfold try_insert_no_grow at 1. cbn.
   rewrite (t_alloc_tombs _ _ _ _ Ht), N.ltb_irrefl, andb_false_r, H2.
-  destruct (0 <? growth_left t' (N.of_nat (List.length (glist (bg b))))) eqn:Hg2; cbn.
-  { destruct (mem_addr (ob_addr oB) (gseal g1 :: glist g1)); cbn; [reflexivity|].
+  destruct (0 <? growth_left t' (N.of_nat (List.length (glist (bg b))))) eqn:Hg2.
+  { cbn. destruct (mem_addr (ob_addr oB) (gseal g1 :: glist g1)); xrun; [reflexivity|].
     rewrite b_insert_new_eq, Hx1. cbn. rewrite !H1.
-    destruct (add64 (bcur b) (es u)) as [c2|]; cbn.
-    - destruct (set_head _ (gseal (bg b)) (ob_addr oB)) as [h'|]; cbn; [|reflexivity]. norm. cbn. rewrite !app_nil_r. reflexivity.
+    destruct (add64 (bcur b) (es u)) as [c2|]; xrun.
+    - destruct (set_head _ (gseal (bg b)) (ob_addr oB)) as [h'|]; xrun; [|reflexivity]. norm. cbn. rewrite !app_nil_r. reflexivity.
     - destruct (set_head _ (gseal (bg b)) (ob_addr oB)) as [h'|]; reflexivity. }
   (* a second failure: the model gives up (None); the program reallocates once more and runs out of rounds *)
-  rewrite exec_call. cbn.
-  destruct (mul64 (capacity t') 2) as [cc2|]; cbn; [|reflexivity].
+  xrun. rewrite exec_call. cbn.
+  destruct (mul64 (capacity t') 2) as [cc2|]; xrun; [|reflexivity].
   rewrite P2_lrucache_reallocate_call. cbn.
-  destruct (t_alloc E (N.max cc2 1) (o_alloc (ob oB))) as [t''| |]; cbn; try reflexivity.
-  destruct (b_moves_chk g1 (ob_moves oB)) as [g3|]; cbn; [|reflexivity].
-  destruct (nextof (gh g3) (gseal g3)); cbn; reflexivity.
+  destruct (t_alloc E (N.max cc2 1) (o_alloc (ob oB))) as [t''| |]; xrun; try reflexivity.
+  destruct (b_moves_chk g1 (ob_moves oB)) as [g3|]; xrun; [|reflexivity].
+  destruct (nextof (gh g3) (gseal g3)); xrun; reflexivity.
 Qed.
+
+(* ---------- insert ---------- *)
+Definition out_too_large (name : string) (v : value) (mk : key -> val -> N -> N -> out) : option out :=
+  match v with
+  | VStruct n fs =>
+      if String.eqb n name then
+        match field "key" fs, field "value" fs, field "entry_size" fs, field "max_size" fs with
+        | Some (VKey k), Some (VVal w), Some (VNum sz), Some (VNum mx) => Some (mk k w sz mx)
+        | _, _, _, _ => None
+        end
+      else None
+  | _ => None
+  end.
+Definition out_insert (v : value) : option out :=
+  match v with
+  | VOk VNone => Some (OInsOk None)
+  | VOk (VSome (VVal w)) => Some (OInsOk (Some w))
+  | VErr x => out_too_large "EntryTooLarge" x OInsTooLarge       (* InsertError::from(EntryTooLarge { .. }) keeps the fields *)
+  | _ => None
+  end.
+(* does insert erase anything: a duplicate key, or an eviction *)
+Definition ins_erases (b : bstate) (k : key) (v : val) : bool :=
+  match esz E k v with
+  | Some sz => match b_find (bg b) (kid k) with Some _ => true | None => (bmax b - sz) <? bcur b end
+  | None => true
+  end.
+Lemma b_insert_unchecked_tomb_if c g t k v sz : b_insert_unchecked E g t k v sz (tomb_if c oB) = b_insert_unchecked E g t k v sz oB.
+Proof. destruct c; reflexivity. Qed.
+
+Theorem P2_lrucache_insert : forall b k v, o_alloc (ob oB) = true ->
+  run lrucache_insert [VKey k; VVal v] out_insert b = stepB E VS b (Insert k v) (tomb_if (ins_erases b k v) oB).
+Proof.
+  intros b k v Halloc. unfold run_op, run_fn, init. xstart lrucache_insert. xrun.
+  xcall P2_lrucache_prepare_insert_call. unfold stepB, bB_insert, ins_erases.
+  destruct (esz E k v) as [sz|] eqn:Hsz; xrun; [|reflexivity].
+  destruct (bmax b <? sz) eqn:Hlt; xrun; [reflexivity|].
+  rewrite N.eqb_refl.
+  destruct (b_find (bg b) (kid k)) as [[a e]|] eqn:Hf.
+  - (* a duplicate: taken out, unhinged, its key dropped *)
+    destruct (entry_at_node _ _ _ (b_find_sound _ _ _ _ Hf)) as (n & Hn & Hp & Hs). rewrite Hn. xrun.
+    xcall P2_lrucache_remove_metadata_call. unfold b_remove. rewrite (unhinge_split _ _ _ Hn), Hp, Hs.
+    destruct (set_next (gh (bg b)) (nprev n) (nnext n)) as [h1|]; xrun; [|reflexivity].
+    destruct (set_prev h1 (nnext n) (nprev n)) as [h2|]; xrun; [|reflexivity].
+    destruct (sub64 (bcur b) (es e)) as [c0|]; xrun; [|reflexivity].
+    rewrite exec_call. cbn.
+    destruct (sub64 (bmax b) sz) as [tgt|]; xrun; [|reflexivity].
+    rewrite P2_lrucache_eject_to_target_call. cbn.
+    destruct (b_eject _ _ c0 tgt) as [[[g1 c1] evd]|]; xrun; [|reflexivity].
+    rewrite ?b_insert_unchecked_tomb_if.
+    xcall P2_lrucache_insert_unchecked_call; [|exact Halloc]. rewrite tb_after_true.
+    destruct (b_insert_unchecked E g1 (t_erase (btb b) (o_tomb (ob oB))) k v sz oB) as [[[g2 t2] rebuilt]|]; xrun; [|reflexivity].
+    destruct (add64 c1 sz) as [c2|]; xrun; [|reflexivity].
+    norm. cbn. unfold set_b. repeat f_equal. destruct rebuilt; evlog. Show.
+  - Show.
 Abort.
 End S.
